@@ -235,6 +235,61 @@ fn enumerate_part(ctx: &Ctx, max_size: usize) {
     ctx.note(&format!("enum-small: every closed explicit program of size <= {max_size} over the leaves type, int, 1, true and two variables"));
 }
 
+/// Conversion inside types, exhaustively for a small family: a value of type `p A` is used where
+/// `p B` is required, for every pair of same-former index expressions over {x, y, 1, 2}.
+fn indexed_family_part(ctx: &Ctx) {
+    let atoms = ["x", "y", "1", "2"];
+    let mut int_bodies: Vec<String> = vec![];
+    let mut bool_bodies: Vec<String> = vec![];
+    for a in atoms {
+        for c in atoms {
+            for op in ["+", "-", "*", "/"] {
+                int_bodies.push(format!("{a} {op} {c}"));
+            }
+            for op in ["<", "<=", "==", ">", ">="] {
+                bool_bodies.push(format!("{a} {op} {c}"));
+            }
+            int_bodies.push(format!("if b then {a} else {c}"));
+            int_bodies.push(format!("f {a} {c}"));
+        }
+        int_bodies.push(format!("- {a}"));
+    }
+    let key = |s: &String| s.split(' ').nth(if s.starts_with("if") || s.starts_with("f ") || s.starts_with('-') { 0 } else { 1 }).unwrap_or("").to_owned();
+    let mut idx = 0u64;
+    let mut total = 0u64;
+    for (bodies, fam) in [(&int_bodies, "int"), (&bool_bodies, "bool")] {
+        for a in bodies.iter() {
+            for b in bodies.iter() {
+                if key(a) != key(b) {
+                    continue;
+                }
+                idx += 1;
+                if idx % u64::from(ctx.nshards) != u64::from(ctx.shard) {
+                    continue;
+                }
+                let text = format!(
+                    "(p : {fam} -> type) => (x : int) => (y : int) => (b : bool) => (f : int -> int -> int) => (a : p ({a})) => (r : p ({b}) = a; r)"
+                );
+                total += 1;
+                match check_text(ctx, None, &text, true) {
+                    Ok(Verdict::AcceptedSound) => ctx.nontrivial_enumerated(|| format!("(accepted) {text}")),
+                    Ok(Verdict::Rejected) => ctx.nontrivial_enumerated(|| format!("(rejected) {text}")),
+                    Ok(_) => {}
+                    Err(f) => {
+                        ctx.settle(Err(f));
+                        if ctx.peek_violations() >= 6 {
+                            return;
+                        }
+                    }
+                }
+            }
+        }
+    }
+    ctx.evaluated(total);
+    ctx.exhaustive("indexed-family");
+    ctx.note("indexed-family: `a : p A` used at `p B` for every pair of same-former index expressions over {x, y, 1, 2} (p : int -> type or bool -> type, lambda-bound)");
+}
+
 const REGRESSIONS: [&str; 4] = [
     "x : ((y : 5) => int) 3 = 4; x",
     "((f : int -> _) => f 1 + 1) ((x : int) => true)",
@@ -248,7 +303,7 @@ pub fn def(tier: Tier) -> CheckDef {
     CheckDef {
         id: "C03",
         level: "exploration",
-        rule: "type-directed generated programs, 70% of them perturbed by 1-2 type-breaking mutations at random nodes (12 kinds: a subterm replaced by a literal / type / lambda, wrapped in an operator, a condition, an application, ...), a third also erased (omitted annotations, `_`), plus every closed explicit program up to size 5 (quick) / 6 (thorough) over a small vocabulary (exhaustive); oracle = whenever gram accepts, an independent checker for explicit terms (R-core, conversion by NbE) must find the *elaborated* term well scoped and well typed with a type convertible with the reported one; and an explicit program that R-core rejects must be rejected by gram; the evidence counts, per typing rule, the programs both sides reject for that rule; non-trivial = accepted and perturbed, or accepted with an application and a binder, or an enumerated program of size >= 3; distinct by text",
+        rule: "type-directed generated programs, 70% of them perturbed by 1-2 type-breaking mutations at random nodes (12 kinds: a subterm replaced by a literal / type / lambda, wrapped in an operator, a condition, an application, ...), a third also erased (omitted annotations, `_`), plus every closed explicit program up to size 5 (quick) / 6 (thorough) over a small vocabulary (exhaustive), plus every program `(a : p A) => (r : p B = a; r)` for same-former index expressions A, B over {x, y, 1, 2} under a lambda-bound family p (exhaustive: conversion inside types); oracle = whenever gram accepts, an independent checker for explicit terms (R-core, conversion by NbE) must find the *elaborated* term well scoped and well typed with a type convertible with the reported one; and an explicit program that R-core rejects must be rejected by gram; the evidence counts, per typing rule, the programs both sides reject for that rule; non-trivial = accepted and perturbed, or accepted with an application and a binder, or an enumerated program of size >= 3; distinct by text",
         assumptions: vec![
             "the typing rules are those of R-core (see C05); elaborated terms that still contain unresolved holes are outside the explicit checker's domain and are counted, not judged",
             "fuel exhaustion of the reference checker and aborts of gram's checker on divergent perturbed programs are inconclusive",
@@ -282,6 +337,12 @@ pub fn def(tier: Tier) -> CheckDef {
                     ReplayInput::Choices(c) => generated_case(ctx, &mut Ch::new(c)),
                     _ => Err(Failure::new("this part replays from choices", "")),
                 })),
+            },
+            Part {
+                name: "indexed-family",
+                rounds: 1,
+                run: Box::new(|ctx, _| indexed_family_part(ctx)),
+                replay: None,
             },
             Part {
                 name: "enum-small",
